@@ -75,7 +75,7 @@ class Refs(object):
         cfg = self.run['clients'][cidx]
         prog = cfg['program']
         rec = cfg['rec']
-        regs = [make_value(self.al, rec['kind'], v) for v in rec['vals']]
+        regs = [make_value(self.al, rec['kind'], v, rec.get('dtype')) for v in rec['vals']]
         out = []
         failed = None
         for j, ins in enumerate(prog['instrs']):
@@ -184,7 +184,7 @@ class Refs(object):
         rec = cfg['rec']
 
         def thunk():
-            cg = self.record(cfg['program'], [make_value(self.al, rec['kind'], v) for v in rec['vals']])
+            cg = self.record(cfg['program'], [make_value(self.al, rec['kind'], v, rec.get('dtype')) for v in rec['vals']])
             return call(cg)
         try:
             again = self.outcome(thunk)
@@ -214,6 +214,15 @@ class Refs(object):
                 for msg in ev.get('inv', []):
                     self.verdict('C05', msg.split(':')[0], ev, False, detail=msg)
                 self.count('checked:C05:invariants')
+            r2_state = op == 'rev' and (not fwd_ok[c] or fwd_args[c] is None)
+            if 'C06' in props and not r2_state:
+                # (a bare sweep over a forward state that was never completed is garbage in,
+                # garbage out -- R2 -- and may scribble anywhere)
+                for u in ev.get('unstable', []):
+                    self.verdict('C06', 'O6.stable', ev, False,
+                                 detail='the result that the call at step %d (client %d) handed out changed '
+                                        'during this %s step of client %d' % (u['result_of_seq'], u['client'], op, c))
+                self.count('checked:C06:O6.stable')
             if op == 'rec':
                 if 'C05' in props:
                     self.judge_rec(ev, c)
@@ -293,7 +302,7 @@ class Refs(object):
         _, failed = self.rec_direct(c)
         if failed is not None:
             return
-        inputs = [make_value(self.al, rec['kind'], v) for v in rec['vals']]
+        inputs = [make_value(self.al, rec['kind'], v, rec.get('dtype')) for v in rec['vals']]
         cg = self.record(prog, inputs)
         want = structure(cg, self.F)
         got = ev['structure']
@@ -365,11 +374,11 @@ class Refs(object):
                 x = numpy.array(step['x'], dtype=float)
                 x0 = al.UTPM(x) if step['name'] == 'jacobian_utpm' else x
                 cg = self.record(prog, [x0])
-                return driver_thunk(al, cg, step)()
+                return driver_thunk(al, cg, step)()[0]
             want = self.outcome(pristine)
         lab = None
         if want is not None and not same_outcome(got, want):
-            lab = self.label(ev['c'], got, lambda cg: driver_thunk(al, cg, step)())
+            lab = self.label(ev['c'], got, lambda cg: driver_thunk(al, cg, step)()[0])
         if 'C06' in self.props:
             self.verdict('C06', 'O6.drv', ev, same_outcome(got, want), got=brief(got), want=brief(want),
                          driver=step['name'], label=lab)
@@ -396,6 +405,11 @@ class Refs(object):
             self.count('note:forward_vs_exact_disagree')
         key = 'exact' if 'exact' in models else 'forward'
         want = models[key]
+        if not _finite(want):
+            # the reference itself is not a number here (e.g. 0**2.5 at second order): there is
+            # no truth to compare with at this point
+            self.count('truth_skipped:model_not_finite')
+            return
         oracle = 'O4c' if name == 'jacobian_utpm' else 'O4b'
         if got[0] != 'ok':
             self.verdict('C04', oracle, ev, False, got=brief(got), want=codec.short(want), driver=name, model=key,
@@ -412,6 +426,16 @@ def same_outcome(a, b):
     if a[0] != b[0]:
         return False
     return a[0] == 'exc' or a[1] == b[1]
+
+
+def _finite(e):
+    if e is None:
+        return True
+    if e['k'] == 'seq':
+        return all(_finite(x) for x in e['v'])
+    if e['k'] in ('nd', 'utpm'):
+        return bool(numpy.all(numpy.isfinite(codec.to_array(e))))
+    return True
 
 
 def brief(out):
